@@ -1,4 +1,228 @@
-From Verif Require Import Base.Prelude ACL.Model.
-Theorem C08_stub : enforce AWrite ARead = Allow.
-Proof. reflexivity. Qed.
-Print Assumptions C08_stub.
+(* C08 — ACL decisions follow rule semantics and depend only on the token's own policies.
+   Theorems only; each closed by an application of a lemma of ACL/Proofs.v or ACL/Cache.v.
+
+   Model: ACL/Model.v (MergePolicies, loadRules, getPolicy, the any/all/prefix walks, every
+   Authorizer method, chained + static authorizers, ACLPolicies.Compile with its two caches).
+   Reference: ACL/Spec.v (the documented rule over plain rule lists, no trees, no merge).
+
+   The full statements of C08_semantics and C08_order_independent are FALSE of the faithful model
+   for access strings that are not spelled in lowercase ("Deny", "WRITE"): the code validates and
+   loads them case-insensitively but compares them with == in takesPrecedenceOver and in the
+   intention defaulting (known finding, confirmed on the real code).  They are therefore stated as
+   _partial under [canonical] (every access string is one of the lowercase constants) together
+   with _refuted witnesses.  C08_pure holds outright. *)
+From Verif Require Import Base.Prelude.
+From Verif Require Import ACL.Model.
+From Verif Require Import ACL.Spec.
+From Verif Require Import ACL.Assoc.
+From Verif Require Import ACL.Proofs.
+From Verif Require Import ACL.Cache.
+From Verif Require Import ACL.EndToEnd.
+From Coq Require Import Permutation.
+
+(* ------------------------------------------------------------------ semantics *)
+
+(* For every list of lowercase policies the authorizer exists, and for every method, name and
+   default policy its decision is the documented rule: exact match, else longest prefix; deny >
+   write > list > read across policies; the default policy otherwise. *)
+Theorem C08_semantics_partial : forall ps,
+  forallb canonical ps = true ->
+  exists a, new_policy_authorizer ps = Some a
+    /\ forall m, policy_decide a m = spec_decide ps m
+    /\ forall s, chain_decide a s m = spec_chain ps s m.
+Proof. exact semantics. Qed.
+
+(* ... refuted without the hypothesis: deny spelled "Deny" is overridden by read. *)
+Definition p_key (name : string) (pol : pstr) : policy :=
+  Policy PEmpty PEmpty PEmpty PEmpty PEmpty [Rule KKey false name pol PEmpty].
+
+Theorem C08_semantics_refuted : exists ps a m,
+  new_policy_authorizer ps = Some a /\ forallb validate ps = true
+  /\ policy_decide a m = Allow /\ spec_decide ps m = Deny.
+Proof.
+  exists [p_key "a" (POdd LDeny); p_key "a" (PCanon LRead)]. eexists. exists (MKeyRead "a").
+  vm_compute. repeat split; reflexivity.
+Qed.
+
+(* a scalar rule spelled "Write" yields no rule at all *)
+Theorem C08_semantics_scalar_refuted : exists p a,
+  new_policy_authorizer [p] = Some a /\ validate p = true
+  /\ policy_decide a MACLWrite = Default /\ spec_decide [p] MACLWrite = Allow.
+Proof.
+  exists (Policy (POdd LWrite) PEmpty PEmpty PEmpty PEmpty []). eexists. vm_compute. repeat split; reflexivity.
+Qed.
+
+(* the pieces of the reference, in words a reader can check *)
+
+(* "deny overrides write overrides list overrides read": the winner occurs in the list and
+   nothing in the list outranks it (rank: read 1 < list 2 < write 3 < deny 4) *)
+Theorem C08_strongest : forall ls,
+  match strongest ls with
+  | None => ls = []
+  | Some m => In m ls /\ forall l, In l ls -> rank l <= rank m
+  end.
+Proof. exact strongest_spec. Qed.
+
+(* "longest matching prefix": among all prefixes of the name that carry a prefix rule, the
+   chosen one has the longest name *)
+Theorem C08_longest_prefix : forall (v : view) n,
+  match longest_prefix v n with
+  | Some l => exists p, String.prefix p n = true /\ v true p = Some l
+                /\ forall q, String.prefix q n = true -> v true q <> None -> String.length q <= String.length p
+  | None => forall q, String.prefix q n = true -> v true q = None
+  end.
+Proof. exact longest_prefix_spec. Qed.
+
+(* KeyWritePrefix (good = write) and ServiceReadPrefix (good = read or write), over ALL rules below
+   the prefix: denied iff the rule applying to the prefix itself or any rule (exact or prefix) whose
+   name starts with the prefix is not good; allowed iff a prefix rule applies and all are good *)
+Theorem C08_subtree : forall good (v : view) S p, covers S v ->
+  (spec_subtree good v S p = Deny <->
+     (exists l, longest_prefix v p = Some l /\ good l = false)
+     \/ (exists pf n l, String.prefix p n = true /\ v pf n = Some l /\ good l = false))
+  /\ (spec_subtree good v S p = Allow <->
+     (exists l, longest_prefix v p = Some l /\ good l = true)
+     /\ (forall pf n l, String.prefix p n = true -> v pf n = Some l -> good l = true)).
+Proof. exact spec_subtree_meaning. Qed.
+
+(* ServiceWriteAny / IntentionRead "*" / imported-resource reads: allowed iff SOME rule grants *)
+Theorem C08_any : forall (v : view) S need, covers S v ->
+  (spec_any v S need = Allow <-> exists pf n l, v pf n = Some l /\ grants l need = true)
+  /\ (spec_any v S need = Default <-> (forall pf n l, v pf n = Some l -> grants l need = false) /\ v true EmptyString = None).
+Proof. exact spec_any_meaning. Qed.
+
+(* NodeReadAll / ServiceReadAll / IntentionWrite "*": denied iff SOME rule does not grant *)
+Theorem C08_all : forall (v : view) S need, covers S v ->
+  (spec_all v S need = Deny <-> exists pf n l, v pf n = Some l /\ grants l need = false)
+  /\ (spec_all v S need = Allow <-> (forall pf n l, v pf n = Some l -> grants l need = true) /\ v true EmptyString <> None).
+Proof. exact spec_all_meaning. Qed.
+
+(* the name lists the reference walks do cover every name with a rule, so the three theorems above
+   apply to spec_decide *)
+Theorem C08_covers : forall rs k, covers (names_of rs k) (eff rs k) /\ covers (names_of rs KService) (eff_int rs).
+Proof. intros rs k. split; [apply covers_eff|apply covers_eff_int]. Qed.
+
+(* ------------------------------------------------------------------ order independence *)
+
+Theorem C08_order_independent_partial : forall ps ps' a a',
+  forallb canonical ps = true -> Permutation ps ps' ->
+  new_policy_authorizer ps = Some a -> new_policy_authorizer ps' = Some a' ->
+  forall m, policy_decide a m = policy_decide a' m /\ forall s, chain_decide a s m = chain_decide a' s m.
+Proof. exact order_independent. Qed.
+
+Theorem C08_order_independent_refuted : exists ps ps' a a' m,
+  Permutation ps ps' /\ forallb validate ps = true
+  /\ new_policy_authorizer ps = Some a /\ new_policy_authorizer ps' = Some a'
+  /\ policy_decide a m = Deny /\ policy_decide a' m = Allow.
+Proof.
+  exists [p_key "a" (POdd LDeny); p_key "a" (POdd LWrite)], [p_key "a" (POdd LWrite); p_key "a" (POdd LDeny)].
+  eexists. eexists. exists (MKeyWrite "a").
+  split; [apply perm_swap|]. vm_compute. repeat split; reflexivity.
+Qed.
+
+(* Go hands the merged rules to loadRules in map-iteration order: any order gives the same decisions *)
+Theorem C08_map_order_independent : forall ps p' a a',
+  forallb canonical ps = true ->
+  p_acl p' = p_acl (merge_policies ps) -> p_keyring p' = p_keyring (merge_policies ps) ->
+  p_operator p' = p_operator (merge_policies ps) -> p_mesh p' = p_mesh (merge_policies ps) ->
+  p_peering p' = p_peering (merge_policies ps) ->
+  Permutation (p_rules p') (p_rules (merge_policies ps)) ->
+  new_policy_authorizer ps = Some a -> load_rules p' = Some a' ->
+  forall m, policy_decide a' m = policy_decide a m.
+Proof. exact map_order_independent. Qed.
+
+(* ------------------------------------------------------------------ purity *)
+
+(* Whatever tokens were resolved before (any policies of the versioned store W, any order), whatever
+   was evicted or purged in between: a token's decisions are those of freshly parsed policies in an
+   empty cache.  No hypothesis on the spelling of access strings. *)
+Theorem C08_pure : forall W c es s m,
+  versioned W -> reach W c -> Forall W es ->
+  resolve_decide c es s m = resolve_decide caches_empty es s m.
+Proof. exact resolve_decide_pure. Qed.
+
+Theorem C08_pure_authorizer : forall W c c' es,
+  versioned W -> reach W c -> reach W c' -> Forall W es ->
+  snd (compile c es) = snd (compile c' es).
+Proof. exact compile_cache_independent. Qed.
+
+(* end to end: through any reachable cache the caller sees the documented rule *)
+Theorem C08_semantics_through_caches : forall W c es s m,
+  versioned W -> reach W c -> Forall W es ->
+  forallb (fun e => e_ok e && validate (e_pol e)) es = true ->
+  forallb canonical (map e_pol es) = true ->
+  resolve_decide c es s m = Some (spec_chain (map e_pol es) s m).
+Proof. exact semantics_through_caches. Qed.
+
+(* ------------------------------------------------------------------ non-vacuity *)
+
+(* a lowercase policy set with overlapping names, duplicates across policies, every level *)
+Definition ex_ps : list policy :=
+  [Policy (PCanon LRead) PEmpty (PCanon LWrite) PEmpty PEmpty
+     [Rule KKey true "" (PCanon LRead) PEmpty; Rule KKey false "ab" (PCanon LWrite) PEmpty;
+      Rule KService true "a" (PCanon LWrite) (PCanon LDeny); Rule KNode false "n" (PCanon LRead) PEmpty];
+   Policy (PCanon LWrite) PEmpty PEmpty (PCanon LDeny) PEmpty
+     [Rule KKey true "a" (PCanon LList) PEmpty; Rule KKey false "ab" (PCanon LDeny) PEmpty;
+      Rule KService true "a" (PCanon LRead) PEmpty; Rule KService false "ab" (PCanon LDeny) PEmpty]].
+
+Example C08_canonical_example :
+  forallb canonical ex_ps = true /\ forallb validate ex_ps = true
+  /\ spec_chain ex_ps deny_all (MKeyWrite "ab") = Deny          (* deny beats write on the same name *)
+  /\ spec_chain ex_ps deny_all (MKeyList "abc") = Allow         (* longest prefix "a" (list) beats "" (read) *)
+  /\ spec_chain ex_ps deny_all (MKeyWrite "x") = Deny           (* "" read does not grant write *)
+  /\ spec_chain ex_ps allow_all (MNodeWrite "zz") = Allow       (* no rule: default policy *)
+  /\ spec_chain ex_ps deny_all (MIntentionRead "a1") = Deny     (* explicit intentions = deny *)
+  /\ spec_chain ex_ps deny_all (MServiceRead "ab" false) = Deny (* exact beats prefix *)
+  /\ spec_chain ex_ps deny_all MMeshRead = Deny /\ spec_chain ex_ps deny_all MPeeringWrite = Allow.
+Proof. vm_compute. repeat split; reflexivity. Qed.
+
+(* a versioned store with two versions of a policy and a non-empty reachable cache *)
+Definition ex_e1 := PEntry 1 1 11 true (p_key "a" (PCanon LRead)).
+Definition ex_e2 := PEntry 2 1 12 true (p_key "a" (PCanon LWrite)).
+Definition ex_e1' := PEntry 1 2 13 true (p_key "a" (PCanon LDeny)).
+Definition ex_W (e : pentry) : Prop := e = ex_e1 \/ e = ex_e2 \/ e = ex_e1'.
+
+Example C08_pure_example :
+  versioned ex_W
+  /\ reach ex_W (fst (compile (fst (compile caches_empty [ex_e1; ex_e2])) [ex_e1']))
+  /\ c_parsed (fst (compile (fst (compile caches_empty [ex_e1; ex_e2])) [ex_e1'])) <> []
+  /\ Forall ex_W [ex_e1].
+Proof.
+  split; [|split; [|split]].
+  - intros x y Hx Hy. unfold ex_W in Hx, Hy.
+    destruct Hx as [Hx|[Hx|Hx]], Hy as [Hy|[Hy|Hy]]; subst x y; cbn;
+      (split; [intros H1 H2|intros H1]); try discriminate; try (split; reflexivity); reflexivity.
+  - apply reach_compile; [apply reach_compile; [apply reach_empty|]|];
+      repeat (apply Forall_cons || apply Forall_nil); unfold ex_W; auto.
+  - vm_compute. discriminate.
+  - apply Forall_cons; [unfold ex_W; auto|apply Forall_nil].
+Qed.
+
+(* the versioning hypothesis of C08_pure is needed: with two different policies under the same
+   (ID, ModifyIndex) the authorizer cache hands the second token the first one's authorizer *)
+Example C08_pure_needs_versioning :
+  let e := PEntry 1 1 11 true (p_key "a" (PCanon LRead)) in
+  let e' := PEntry 1 1 12 true (p_key "a" (PCanon LWrite)) in
+  let c := fst (compile caches_empty [e]) in
+  resolve_decide c [e'] deny_all (MKeyWrite "a") = Some Deny
+  /\ resolve_decide caches_empty [e'] deny_all (MKeyWrite "a") = Some Allow.
+Proof. vm_compute. split; reflexivity. Qed.
+
+Print Assumptions C08_semantics_partial.
+Print Assumptions C08_semantics_refuted.
+Print Assumptions C08_semantics_scalar_refuted.
+Print Assumptions C08_strongest.
+Print Assumptions C08_longest_prefix.
+Print Assumptions C08_subtree.
+Print Assumptions C08_any.
+Print Assumptions C08_all.
+Print Assumptions C08_covers.
+Print Assumptions C08_order_independent_partial.
+Print Assumptions C08_order_independent_refuted.
+Print Assumptions C08_map_order_independent.
+Print Assumptions C08_pure.
+Print Assumptions C08_pure_authorizer.
+Print Assumptions C08_semantics_through_caches.
+Print Assumptions C08_canonical_example.
+Print Assumptions C08_pure_example.
+Print Assumptions C08_pure_needs_versioning.
